@@ -189,7 +189,19 @@ _EXTRA3 = {
     'C18': 'no thread-local / static state in match_words_with and edited_words',
     'C19': 'every Ok(()) of train_bpe is behind merge_ops.save',
 }
+_EXTRA4 = {
+    'C01': 'the special-token matcher sets no match-widening regex option and escapes the tokens (exact, like the lookup); special ids start at 256 for the byte tokenizer (R-C04-2 re-evaluated)',
+    'C02': 'the de_tokenize loops leave the id slice early only towards an error',
+    'C03': 'merge_bytes merges within whole matches of the splitter: unadapted find_iter, per-word tables from all bytes of the match',
+    'C04': 'byte tokenizer: one byte boundary (256) in id_to_token / de_tokenize / get_vocab / vocab_size; no state change inside a debug assertion in src/tokenization.rs',
+    'C06': 'the value compared with k in find_subsequences_of_max_size_k is size_fn of one window; the fill loop pulls from the source itself (no look-ahead adaptor over the borrowed source)',
+    'C07': 'path table of next() with versioned self.idx: tag equals the index the pull used; mark before all_finished()/next_idx(); None only under all_finished()',
+    'C10': 'operations()/repair() segment their arguments themselves (no normalised copy)',
+    'C20': 'all constant segmentation flags passed from src/dictionary.rs agree',
+}
 for _k, _v in _EXTRA3.items():
+    _EXTRA_DECIDES[_k] = (_EXTRA_DECIDES[_k] + '; ' + _v) if _k in _EXTRA_DECIDES else _v
+for _k, _v in _EXTRA4.items():
     _EXTRA_DECIDES[_k] = (_EXTRA_DECIDES[_k] + '; ' + _v) if _k in _EXTRA_DECIDES else _v
 for _k, _v in _EXTRA_DECIDES.items():
     if _k in INFO and _v not in INFO[_k]['decides']:
